@@ -21,7 +21,9 @@ REPO = os.environ.get("VERIF_REPO", "/repo")
 SPEC = os.path.join(VERIF, "spec")
 HARNESS = os.path.join(VERIF, "harness")
 OUT = os.path.join(VERIF, "out")
-EVIDENCE = os.path.join(VERIF, "evidence")
+# (development only: lib/seed_detect_par.sh points runs against seeded changes somewhere else, so that the committed
+# evidence always comes from the unchanged tree; no registered command sets this)
+EVIDENCE = os.environ.get("VERIF_EVIDENCE_DIR") or os.path.join(VERIF, "evidence")
 KNOWN = os.path.join(VERIF, "known_findings.jsonl")
 NCPU = os.cpu_count() or 4
 
